@@ -35,6 +35,8 @@ PORTSETS = {
     # refused: two blanks, a public address in a ready-made string, two colons, no colon, a local side that is no port / socket / address
     'bad-two-blanks': ['80  127.0.0.1:81'], 'bad-public-addr': ['80 8.8.8.8:81'], 'bad-two-colons': ['80 127.0.0.1:81:82'],
     'bad-no-colon': ['80 8080'], 'bad-pair-public-addr': [(80, '8.8.8.8:81')], 'bad-ext': ['http 127.0.0.1:81'], 'bad-pair-local': [(80, 'nowhere')], 'bad-among-good': [(80, 8080), '80 8.8.8.8:81', 443],
+    # the ends of the port range, as numbers and in ready-made strings; a five-digit local port
+    'edge-ports': [65535, (1, 65535), '65535 127.0.0.1:8080', (65534, '127.0.0.1:65535'), '1 unix:/tmp/one'],
     'str': ['80 127.0.0.1:1234'], 'samevirt': [(80, 8080), (80, 8081), '80 unix:/tmp/third'], 'strunix': ['443 unix:/x/y'], 'three': [(80, 8080), '443 127.0.0.1:4443', (22, 'unix:/s')],
 }
 
